@@ -17,16 +17,42 @@ _DEC = {}
 _NEIGHBOURS = []
 
 
+def standard_classes(decoder_cls):
+    """the message classes a decoder knows: the class-level tables when they are there, else what the public
+    lookupPduClass() reveals (function level only)"""
+    name = decoder_cls.__name__
+    out = []
+    for table in ('_%s__function_table' % name, '_%s__sub_function_table' % name):
+        out.extend(getattr(decoder_cls, table, ()))
+    if not out:
+        d, seen = decoder_cls(), set()
+        for fc in range(1, 128):
+            try:
+                c = d.lookupPduClass(fc)
+            except Exception:   # noqa
+                c = None
+            if isinstance(c, type) and getattr(c, 'function_code', None) == fc and c not in seen:
+                seen.add(c)
+                out.append(c)
+    return out
+
+
+def buffered(fr):
+    """number of unconsumed bytes a framer holds (its receive buffer)"""
+    b = getattr(fr, '_buffer', None)
+    if isinstance(b, (bytes, bytearray)):
+        return len(b)
+    return sum(len(v) for v in vars(fr).values() if isinstance(v, (bytes, bytearray)))
+
+
 def _neighbour(side):
     """another decoder of the same class on which an application registered its own variants of every standard
     message class (function-level and sub-function-level): what one decoder object is told must not show in another"""
     cls = ServerDecoder if side == 'req' else ClientDecoder
-    name = cls.__name__
     d = cls()
-    for table in ('_%s__function_table' % name, '_%s__sub_function_table' % name):
-        for c in getattr(cls, table):
-            ns = dict(decode=lambda self, data: setattr(self, 'neighbour_decoded', True), __doc__='neighbour variant')
-            d.register(type('Neighbour' + c.__name__, (c,), ns))
+    for c in standard_classes(cls):
+        ns = dict(decode=lambda self, data: setattr(self, 'neighbour_decoded', True), __doc__='neighbour variant')
+        d.register(type('Neighbour' + c.__name__, (c,), ns))
     _NEIGHBOURS.append(d)
 
 
